@@ -72,6 +72,8 @@ def generate(rng, tier):
     # structure-aware corruption of every located small-integer field; tamper-hook streams (semantic corruption)
     cases += R.structured_cases(rng, tier, FLAVOUR, ORACLES, n_each=8 if thorough else 5)
     cases += R.tamper_cases(rng, tier, FLAVOUR, ORACLES, budget=None if thorough else 6000)
+    # accepted geometry carrying an assembled metadata chain up to the nesting limit (and the rejected ones past it)
+    cases += [c for c in R.metadata_chain_cases(streams, tier, FLAVOUR, ORACLES) if "mdchain:deep" not in c.tags]
     return cases
 
 
